@@ -399,13 +399,26 @@ func (c *DefaultCtx) Body() []byte {
 func (c *DefaultCtx) ClearCookie(key ...string) {
 	if len(key) > 0 {
 		for i := range key {
+			if key[i] == FlashCookieName && c.flashCookieExpired() {
+				continue
+			}
 			c.fasthttp.Response.Header.DelClientCookie(key[i])
 		}
 		return
 	}
 	c.fasthttp.Request.Header.VisitAllCookie(func(k, _ []byte) {
+		if string(k) == FlashCookieName && c.flashCookieExpired() {
+			return
+		}
 		c.fasthttp.Response.Header.DelClientCookieBytes(k)
 	})
+}
+
+// flashCookieExpired reports whether the response already expires the flash cookie. That happens when the
+// request's flash messages are consumed, with the path the cookie was issued for; an expiry without path,
+// as ClearCookie writes it, would replace it and miss the cookie on every nested URL.
+func (c *DefaultCtx) flashCookieExpired() bool {
+	return len(c.fasthttp.Response.Header.PeekCookie(FlashCookieName)) > 0
 }
 
 // RequestCtx returns *fasthttp.RequestCtx that carries a deadline
